@@ -479,4 +479,55 @@ def run : Objs → List Ev → List Done
 
 def stateAfter (s : Objs) (evs : List Ev) : Objs := evs.foldl (fun s e => (step s e).1) s
 
+/-! ### the link queues packet OBJECTS and serialises them later
+
+`Crazyflie.send_packet` hands the packet object to the link driver; a queueing driver (RadioDriver, UsbDriver, ...) puts the
+object into a queue and its thread reads `pk.header` / `pk.data` only when it transmits — after `send_packet` has returned
+and possibly after further API calls.  What reaches the wire is therefore the content of the object AT TRANSMIT TIME.
+The heap below gives packet objects identity: every emitting call allocates a NEW object for each packet it sends
+(`pk = CRTPPacket()` in the method itself, pinned by `gen_fresh_packet`; no packet is stored on `self`, `gen_object_state`),
+writes only that object, and enqueues its id. -/
+
+/-- heap of packet objects (index = object identity), ids queued in the link, frames already serialised -/
+structure LinkSt where
+  heap : List Packet
+  queue : List Nat
+  wire : List Packet
+  deriving DecidableEq, Repr, Inhabited
+
+def LinkSt.init : LinkSt := { heap := [], queue := [], wire := [] }
+
+/-- `pk = CRTPPacket(); ...; link.send_packet(pk)` for each packet of one call: allocate, fill, enqueue -/
+def LinkSt.enqueue (l : LinkSt) : List Packet → LinkSt
+  | [] => l
+  | p :: ps => LinkSt.enqueue { l with heap := l.heap ++ [p], queue := l.queue ++ [l.heap.length] } ps
+
+/-- the driver thread drains its queue: each queued object is read NOW -/
+def LinkSt.transmit (l : LinkSt) : LinkSt :=
+  { l with queue := [], wire := l.wire ++ l.queue.filterMap (fun i => l.heap[i]?) }
+
+inductive LEv
+  | api (e : Ev)        -- an event of the objects' life (call, negotiation, x-mode)
+  | transmit            -- the link's thread gets to run
+  deriving DecidableEq, Repr, Inhabited
+
+def stepL (s : Objs × LinkSt) : LEv → Objs × LinkSt
+  | .transmit => (s.1, s.2.transmit)
+  | .api e =>
+    match step s.1 e with
+    | (s', some d) => (s', match d.result with | .ok ps => s.2.enqueue ps | .error _ => s.2)
+    | (s', none) => (s', s.2)
+
+def runL (s : Objs × LinkSt) (evs : List LEv) : Objs × LinkSt := evs.foldl stepL s
+
+/-- the API events of a schedule, without the transmit points -/
+def apiEvents : List LEv → List Ev
+  | [] => []
+  | .api e :: es => e :: apiEvents es
+  | .transmit :: es => apiEvents es
+
+/-- the packets of the successful calls of a history, in call order -/
+def emitted (ds : List Done) : List Packet :=
+  ds.flatMap fun d => match d.result with | .ok ps => ps | .error _ => []
+
 end CfVerif.C08
